@@ -140,6 +140,8 @@ pub enum Entry {
     HConn { conn: u64, ev: HC },
     HPollClose { conn: u64 },
     HDrop { conn: u64 },
+    /// the handler yielded `Some(HOut { tag, .. })` from `poll_close` (recorded at emission)
+    HCloseEmit { conn: u64, tag: u64 },
 }
 
 #[derive(Clone, Debug)]
@@ -181,6 +183,8 @@ pub enum HCmd {
     Emit(u64),
     /// write bytes on the i-th held stream
     Write(u8, Vec<u8>),
+    /// keep an event HOut { tag } back until the connection closes: it is yielded from `poll_close` (one per call)
+    EmitOnClose(u64),
 }
 
 #[derive(Clone, Debug, PartialEq, Eq, Serialize, Deserialize)]
@@ -244,6 +248,8 @@ pub struct ProbeHandler {
     pub state: Arc<Mutex<HState>>,
     protocols: Vec<String>,
     out: VecDeque<ConnectionHandlerEvent<ProbeUpgrade, (), HOut>>,
+    /// final events, flushed from `poll_close`
+    close_out: VecDeque<HOut>,
     streams: Vec<Stream>,
     waker: Option<Waker>,
     stream_timeout: std::time::Duration,
@@ -297,6 +303,10 @@ impl ConnectionHandler for ProbeHandler {
 
     fn poll_close(&mut self, _: &mut Context<'_>) -> Poll<Option<HOut>> {
         push(&self.log, self.node, self.field, Entry::HPollClose { conn: self.conn });
+        if let Some(ev) = self.close_out.pop_front() {
+            push(&self.log, self.node, self.field, Entry::HCloseEmit { conn: self.conn, tag: ev.tag });
+            return Poll::Ready(Some(ev));
+        }
         Poll::Ready(None)
     }
 
@@ -326,6 +336,7 @@ impl ConnectionHandler for ProbeHandler {
                 self.out.push_back(ConnectionHandlerEvent::ReportRemoteProtocols(if added { ProtocolSupport::Added(set) } else { ProtocolSupport::Removed(set) }));
             }
             HCmd::Emit(tag) => self.out.push_back(ConnectionHandlerEvent::NotifyBehaviour(HOut { tag, field: self.field })),
+            HCmd::EmitOnClose(tag) => self.close_out.push_back(HOut { tag, field: self.field }),
             HCmd::Write(i, bytes) => {
                 use futures::AsyncWrite;
                 if let Some(s) = self.streams.get_mut(i as usize) {
@@ -462,6 +473,7 @@ impl Probe {
             state,
             protocols: self.script.protocols.clone(),
             out: VecDeque::new(),
+            close_out: VecDeque::new(),
             streams: vec![],
             waker: None,
             stream_timeout: std::time::Duration::from_millis(if self.script.stream_timeout_ms == 0 { 10_000 } else { self.script.stream_timeout_ms }),
